@@ -126,7 +126,7 @@ func checkAddressCase(c AddressCase, o *vt.Obs) (err error) {
 
 // ---- Base58Check ------------------------------------------------------------------------------------------------
 
-// Base58Case: payload = Zeros zero bytes followed by Data (at least one byte in total, as for every user of the format).
+// Base58Case: payload = Zeros zero bytes followed by Data (possibly empty: the format has no minimum length).
 type Base58Case struct {
 	Zeros int      `json:"zeros"`
 	Data  vt.Bytes `json:"data"`
@@ -150,21 +150,23 @@ func genBase58Case(t *rapid.T) Base58Case {
 	default:
 		c.Data = rapid.SliceOfN(rapid.Byte(), 0, 70).Draw(t, "data")
 	}
-	if c.Zeros == 0 && len(c.Data) == 0 {
-		c.Data = vt.Bytes{0x35}
-	}
 	return c
 }
 
 func checkBase58Case(c Base58Case, o *vt.Obs) error {
 	b := append(make([]byte, c.Zeros), c.Data...)
 	if len(b) == 0 {
-		b = []byte{0x35}
+		o.Label("empty-payload")
 	}
-	arg := bytes.Clone(b)
+	// the argument is a sub-slice of a larger buffer: the encoder must not write behind it
+	buf := append(bytes.Clone(b), 0xa5, 0xa5, 0xa5, 0xa5, 0xa5, 0xa5)
+	arg := buf[:len(b)]
 	s := base58.CheckEncode(arg)
 	if !bytes.Equal(arg, b) {
 		return fmt.Errorf("CheckEncode mutated its input: %x -> %x", b, arg)
+	}
+	if !bytes.Equal(buf[len(b):], []byte{0xa5, 0xa5, 0xa5, 0xa5, 0xa5, 0xa5}) {
+		return fmt.Errorf("CheckEncode(%x) wrote behind its argument (spare capacity of the caller's buffer): %x", b, buf[len(b):])
 	}
 	if want := refBase58Check(b); s != want {
 		return fmt.Errorf("CheckEncode(%x) = %q, Base58Check gives %q", b, s, want)
@@ -206,7 +208,7 @@ func checkBase58Case(c Base58Case, o *vt.Obs) error {
 		}
 	}
 	// too short for a checksum
-	for _, short := range []string{"", "1", "2g", "1111", "3yQ"} {
+	for _, short := range []string{"", "1", "2g", "1111", "3yQ", "3QJmn"} {
 		if got, err := base58.CheckDecode(short); err == nil {
 			return fmt.Errorf("CheckDecode(%q) = %x without error", short, got)
 		}
